@@ -44,6 +44,24 @@ def run(tier):
     r, mcases, n = mp.mc_cases(chk, "mp-headers-l", wd, "headers", 3 if quick else 4, [0, 1, 2, 3], "small", emit=False)
     if r.ok:
         chk.add_tlc(r)
+    # inputs that grow in length without growing in depth, on the default and on the all-options build (comments)
+    fstacks = {}
+    for label, o in (("def", D), ("all", rc.OPTS_ALL)):
+        st = {}
+        rk.run_feed(chk, wd, f"flat-{label}", rg.gen_flat(o), None, [(label, bins[label])], stacks_out=st)
+        for (tag, f), b in st.get(label, {}).get("by_tag", {}).items():
+            m = re.match(r"flat n=(\d+) L=(\d+) shape=(.*)", tag)
+            if m:
+                fstacks.setdefault((label, m.group(3), f), {})[int(m.group(1))] = b
+    flat_compared = 0
+    for (label, shape, f), d in fstacks.items():
+        if len(d) >= 2:
+            flat_compared += 1
+            small, big = min(d), max(d)
+            if d[big] > d[small] + 1024:
+                chk.violation(f"stack consumed depends on the input length: build {label}, shape {shape}: {d[big]} bytes "
+                              f"for size {big}, {d[small]} bytes for size {small}")
+    chk.phase("stack-independence(flat)", groups=flat_compared)
     # stack use is a function of the limit, not of the input length
     by_tag = dict(stacks.get("def", {}).get("by_tag", {}))
     by_tag.update({("mp " + k[0].replace("depth", "depth", 1), k[1]): v for k, v in mstacks.get("by_tag", {}).items()})
